@@ -142,8 +142,19 @@ def expected_global_draws(case):
     return out
 
 
+def has_randsz(c):
+    return any(f.get("randsz") for k in c["classes"] for f in k["fields"])
+
+
+def first_call_on(c, k):
+    """is operation k the first call on its object?"""
+    o = c["ops"][k][1]
+    return not any(op[0] == "call" and op[1] == o for op in c["ops"][:k])
+
+
 def run(ctx):
     core.check_prop_file(ctx, "Prop_C09.v")
+    known = {f["sig"] for f in core.known_for("C09")}
     rnd = random.Random("C09-%d" % ctx.seed)
     n = 60 if ctx.quick() else 1200
     cases = [gen_case(rnd) for _ in range(n)]
@@ -172,6 +183,11 @@ def run(ctx):
                     core.add_violation(ctx, "the history raised under configuration %s only: %s" % (name, str(o)[:300]), {"case": c, "config": name})
                     continue
                 for k, (a, b) in enumerate(zip(base["ops"], o["ops"])):
+                    if a != b and "diag.solve_fail_debug_internal_error" in known and a.get("outcome") == "SolveFailure" \
+                            and str(b.get("outcome")).startswith("exc:Exception:internal error: system should solve") \
+                            and {x: a[x] for x in a if x != "outcome"} == {x: b[x] for x in b if x != "outcome"}:
+                        stats["known_region"] = stats.get("known_region", 0) + 1
+                        continue
                     if a != b:
                         core.add_violation(ctx, "operation %d %r gives %r under the plain configuration and %r under %s (hash seed / "
                                                 "unrelated activity / diagnostic settings changed the result)" % (k, c["ops"][k], a, b, name),
@@ -186,6 +202,10 @@ def run(ctx):
                         stats["replayed_calls"] += 1
                         a, b = base["ops"][z], base["ops"][k]
                         # (a failed call leaves whatever the object held: only its outcome is a function of state and call)
+                        if (a["outcome"] != b["outcome"] or (a["outcome"] == "ok" and a["values"] != b["values"])) and \
+                                "replay.first_call_fresh_randsz_list" in known and has_randsz(c) and first_call_on(c, z):
+                            stats["known_region"] = stats.get("known_region", 0) + 1
+                            continue
                         if a["outcome"] != b["outcome"] or (a["outcome"] == "ok" and a["values"] != b["values"]):
                             core.add_violation(ctx, "call %d %r starts from the same random state as call %d %r (model) but returns %r instead "
                                                     "of %r" % (k, c["ops"][k], z, c["ops"][z], (b["outcome"], b["values"]), (a["outcome"], a["values"])),
@@ -201,6 +221,21 @@ def run(ctx):
                                    % (k, c["ops"][k], got[k], exp[k]), {"case": c, "op_index": k})
     runs, cls = evaluate(cases, "c09")
     judge(cases, runs, cls)
+    # the recorded findings: re-evaluated on every run, reported only while they still reproduce
+    for f in core.known_for("C09"):
+        kc = [f["case"]]
+        kr, kcls = evaluate(kc, "c09_known")
+        b0 = kr[0][0]
+        rep = False
+        if "ops" in b0:
+            if f["sig"] == "diag.solve_fail_debug_internal_error":
+                rep = any("ops" in r[0] and any(str(x.get("outcome")).startswith("exc:Exception:internal error") for x in r[0]["ops"]) for r in kr[1:])
+            elif kcls[0] is not None:
+                rep = any(z >= 0 and z != k2 and first_call_on(kc[0], z) and
+                          (b0["ops"][z]["outcome"], b0["ops"][z]["values"]) != (b0["ops"][k2]["outcome"], b0["ops"][k2]["values"])
+                          for k2, z in enumerate(kcls[0]))
+        if rep:
+            ctx.known.append("%s: %s" % (f["sig"], f["what"]))
     if ctx.tie_broken and not ctx.violations:
         for k in range(2):
             r2 = random.Random("C09-search-%d-%d" % (ctx.seed, k))
@@ -221,6 +256,7 @@ def run(ctx):
         "samples": [{k: cases[0][k] for k in ("classes", "nobj", "inlines", "ops", "seed")}],
         "exhaustive": False,
         "replayed_calls_compared": stats["replayed_calls"],
+        "known_region_cases": stats.get("known_region", 0),
         "outcomes": stats["outcomes"],
         "correspondence_mismatches": len(ctx.tie_broken),
     })
